@@ -35,8 +35,15 @@ class Report(object):
         self.discharged += discharged
 
     def sample(self, s):
+        # reservoir sample of the obligations discharged in this run
+        import random
+        self._seen = getattr(self, "_seen", 0) + 1
         if len(self.samples) < 12:
             self.samples.append(s)
+        else:
+            j = random.Random(self.seed * 7919 + self._seen).randrange(self._seen)
+            if j < 12:
+                self.samples[j] = s
 
     def violation(self, desc, replay_payload, role):
         """A confirmed (replayed) violation.  role: dict used to match known findings."""
@@ -45,7 +52,12 @@ class Report(object):
                 if all(role.get(k) == v for k, v in f.get("role", {}).items()):
                     self.violations.append({"desc": desc, "known": f.get("id", "?"), "what": f.get("what", desc)})
                     return
-        path = C.write_replay(self.pid, "%d" % (len(self.violations) + 1), replay_payload)
+        n_new = len([v for v in self.violations if not v.get("known")])
+        if n_new >= 25:
+            # enough witnesses written: further ones are counted, their replay files are not kept
+            self.violations.append({"desc": desc, "replay": self.violations[-1].get("replay"), "known": None, "extra": True})
+            return
+        path = C.write_replay(self.pid, "%d" % (n_new + 1), replay_payload)
         self.violations.append({"desc": desc, "replay": path, "known": None})
 
     def undecided(self, desc, role=None):
@@ -71,8 +83,12 @@ class Report(object):
                 seen.add(v["known"])
                 print("KNOWN-FINDING: property=%s %s" % (self.pid, v["what"]))
         for v in new_viol:
+            if v.get("extra"):
+                continue
             print("VIOLATION property=%s replay=%s" % (self.pid, v["replay"]))
             print("  " + v["desc"])
+        if any(v.get("extra") for v in new_viol):
+            print("  (+%d further violations of the same check not listed)" % len([v for v in new_viol if v.get("extra")]))
         for u in self.unknown[:20]:
             print("INCONCLUSIVE property=%s %s" % (self.pid, u))
         for e in self.errors[:20]:
